@@ -16,7 +16,7 @@ PROP = dict(
          "element and field of a captured object; 48 shadowing forms (a same-named declaration of the OPPOSITE mutability, or a for / match / lambda-parameter "
          "binder of that name, inside a while / for / if / else / match arm / block / lambda body, with the assignment after the "
          "construct closed or inside it, also inside a lambda capturing the outer variable; the target's declaration is decided "
-         "by the Names model through the `assignat` request) and 195 capture-only forms: element / field assignments inside a lambda, a "
+         "by the Names model through the `assignat` request) and 125 capture-only forms: element / field assignments inside a lambda, a "
          "nested lambda or a task where an outer binding (let, var, for variable, function parameter, match binding) occurs "
          "ONLY as the index, the inner or outer index of a[i][j], the index of s.f[i], the index of a[i].f, the right-hand "
          "side, or the array / struct expression of the target) x 6 operators x 3 contexts (top level, function body, lambda body; captured "
